@@ -202,9 +202,40 @@ func (p *Prog) resolveRoles() *Roles {
 			}
 			r.SegReader = n
 			r.SRMessages = mr[0]
-		case len(items) == 1 && len(rw) == 1:
+		case len(items) == 1 && len(rw) >= 1:
 			r.HeadIndex = n
 			r.HIItems, r.HIMu = items[0], rw[0]
+			if len(rw) > 1 {
+				// several locks: the one that guards the items is the one locked in the function that
+				// stores the items field
+				for _, fn := range p.Funcs {
+					stores := false
+					var locked *types.Var
+					for _, b := range fn.Blocks {
+						for _, ins := range b.Instrs {
+							switch x := ins.(type) {
+							case *ssa.Store:
+								if fa, ok := x.Addr.(*ssa.FieldAddr); ok && fieldVarOfAddr(fa) == items[0] && !underConstruction(fa) {
+									stores = true
+								}
+							case *ssa.Call:
+								if calleeName(x.Common()) == "(*sync.RWMutex).Lock" && len(x.Call.Args) == 1 {
+									if fa, ok := x.Call.Args[0].(*ssa.FieldAddr); ok {
+										for _, cand := range rw {
+											if fieldVarOfAddr(fa) == cand {
+												locked = cand
+											}
+										}
+									}
+								}
+							}
+						}
+					}
+					if stores && locked != nil {
+						r.HIMu = locked
+					}
+				}
+			}
 		case len(items) == 1 && len(rw) == 0 && n != r.Impl:
 			r.ReaderIndex = n
 		case len(nf) == 1:
